@@ -752,12 +752,6 @@ where
         R_: Registry,
     {
         if TypeId::of::<C>() == TypeId::of::<C_>() {
-            // The skipped component is no longer owned by any archetype, so it is dropped here.
-            drop(
-                // SAFETY: The buffer is guaranteed to hold a valid, owned value of type `C` at
-                // this point, which is not read again.
-                unsafe { buffer.cast::<C>().read_unaligned() },
-            );
             // Skip this component in the buffer.
             buffer =
                 // SAFETY: The bit buffer is guaranteed to have a value of type `C` at this point
